@@ -36,22 +36,41 @@ func runC07(c *Ctx) {
 	{
 		addPerm := w.Func("allocation", "Allocation", "AddPermission")
 		nR, nS := 0, 0
-		w.eachInstrDeep(addPerm, func(in ssa.Instruction) {
+		// (helpers with several call sites are entered with their parameters expressed in
+		// AddPermission's terms)
+		w.eachInstrThrough(addPerm, 4, func(in ssa.Instruction, rs func(ssa.Value) ssa.Value) {
 			op := w.timerOpOf(in)
 			if op == nil || op.typ != "Permission" {
 				return
 			}
+			dur, obj := rs(op.dur), rs(op.obj)
 			switch op.kind {
 			case "reset":
 				nR++
 				c.Anchor("C07.2", "AddPermission refresh")
 				// the new request's timeout: the timeout field of the parameter
-				okArg := w.isFieldLoadOf(op.dur, addPerm.Params[1], "timeout")
+				okArg := w.isFieldLoadOf(dur, addPerm.Params[1], "timeout")
 				// on the found edge: the object is the map lookup result, ok is true
-				lk, _ := stripIface(w.resolveLoad(op.obj)).(*ssa.Extract)
+				lkv := stripIface(w.resolveLoad(obj))
+				if w.isSynthetic(lkv) {
+					lkv = stripIface(w.realOf(lkv))
+				}
+				if vv, isV := lkv.(*virtVal); isV {
+					lkv = stripIface(w.resolveLoad(under(vv)))
+				}
+				lk, _ := lkv.(*ssa.Extract)
 				okRecv := lk != nil && lk.Index == 0 && lookupPairOf(w, lk.Tuple, w.Field("allocation", "Allocation", "permissions"))
 				okEdge := false
-				for _, f := range w.factsAt(in) {
+				var at ssa.Instruction = in
+				if lk != nil && lk.Parent() != in.Parent() {
+					// the reset sits in refresh(), called where the lookup was made: judge the edge there
+					for _, cs := range w.callsTo(in.Parent()) {
+						if cs.Parent() == lk.Parent() {
+							at = cs
+						}
+					}
+				}
+				for _, f := range w.factsAt(at) {
 					if f.Op == "true" && f.Truth {
 						if e, isE := f.X.(*ssa.Extract); isE && lk != nil && e.Tuple == lk.Tuple && e.Index == 1 {
 							okEdge = true
@@ -66,7 +85,7 @@ func runC07(c *Ctx) {
 			case "arm":
 				nS++
 				c.Anchor("C07.2", "AddPermission start")
-				if w.sameKey(op.obj, addPerm.Params[1]) && w.isFieldLoadOf(op.dur, addPerm.Params[1], "timeout") {
+				if (obj == ssa.Value(addPerm.Params[1]) || w.sameKey(obj, addPerm.Params[1])) && w.isFieldLoadOf(dur, addPerm.Params[1], "timeout") {
 					c.OK("C07.2", fname(addPerm), "perms.start", w.instrPos(in), "new entry started with its own timeout")
 				} else {
 					c.Bad("C07.2", fname(addPerm), "perms.start", w.instrPos(in), "new permission is not started with its own timeout")
@@ -79,13 +98,29 @@ func runC07(c *Ctx) {
 		if nS == 0 {
 			c.Bad("C07.2", fname(addPerm), "perms.start", w.pos(addPerm.Pos()), "a new permission is no longer started by AddPermission")
 		}
-		// must-pass: every path from entry to a return passes a reset or an arm of a permission timer
-		hit := func(in ssa.Instruction) bool {
+		// must-pass: every path from entry to a return (helpers inlined, results correlated)
+		// passes a reset or an arm of a permission timer
+		isPermOp := func(in ssa.Instruction) bool {
 			op := w.timerOpOf(in)
 			return op != nil && op.typ == "Permission"
 		}
-		if ok, trail := mustPassBefore(addPerm.Blocks[0], w.deepHit(hit), func(*ssa.BasicBlock) bool { return false }); !ok {
-			c.Bad("C07.2", fname(addPerm), "all paths", w.pos(addPerm.Pos()), "a path through AddPermission neither refreshes the existing entry nor starts the new one", trail...)
+		may := w.mayContain(isPermOp)
+		badPath := ""
+		cfg := &ipCfg[bool]{w: w}
+		cfg.Inline = func(_ ssa.CallInstruction, h *ssa.Function) bool {
+			return w.IsMod[h] && fnPkgPath(h) == fnPkgPath(addPerm) && may(h)
+		}
+		cfg.Step = func(in ssa.Instruction, hit bool, _ *pathEnv, _ []ssa.CallInstruction) bool {
+			return hit || isPermOp(in)
+		}
+		cfg.Return = func(r *ssa.Return, hit bool, _ *pathEnv) {
+			if !hit {
+				badPath = "the return at " + w.instrPos(r)
+			}
+		}
+		explorePaths(cfg, addPerm, false)
+		if badPath != "" || cfg.Exhausted {
+			c.Bad("C07.2", fname(addPerm), "all paths", w.pos(addPerm.Pos()), "a path through AddPermission neither refreshes the existing entry nor starts the new one ("+badPath+")")
 		}
 	}
 	{
@@ -95,32 +130,68 @@ func runC07(c *Ctx) {
 		chanLife, permLife := acb.Params[2], acb.Params[3]
 		c.Anchor("C07.2", "AddChannelBind channel timer")
 		c.Anchor("C07.2", "AddChannelBind permission")
-		for _, ret := range returnsOf(acb) {
-			if !isNilConst(w.resolveLoad(ret.Results[0])) {
-				continue
+		type cst struct{ perm, ch bool }
+		isOp := func(in ssa.Instruction) bool { return w.timerOpOf(in) != nil }
+		may := w.mayContain(isOp)
+		badChan, badPerm := "", ""
+		nOK := 0
+		cfg := &ipCfg[cst]{w: w}
+		cfg.Inline = func(_ ssa.CallInstruction, h *ssa.Function) bool {
+			return w.IsMod[h] && fnPkgPath(h) == fnPkgPath(acb) && may(h)
+		}
+		cfg.Step = func(in ssa.Instruction, s cst, env *pathEnv, _ []ssa.CallInstruction) cst {
+			op := w.timerOpOf(in)
+			if op == nil {
+				return s
 			}
-			// backward: all paths from entry to this return pass (start|refresh)(_, channelLifetime) and AddPermission(NewPermission(_,_,permissionLifetime))
-			okChan := allPathsTo(acb, ret.Block(), w.deepHitCtx(func(in ssa.Instruction, rs func(ssa.Value) ssa.Value) bool {
-				op := w.timerOpOf(in)
-				return op != nil && op.typ == "ChannelBind" && w.sameKey(rs(op.dur), chanLife)
-			}))
-			okPerm := allPathsTo(acb, ret.Block(), w.deepHitCtx(func(in ssa.Instruction, rs func(ssa.Value) ssa.Value) bool {
-				call, ok := in.(*ssa.Call)
-				if !ok || call.Call.StaticCallee() != addPerm {
-					return false
+			d := env.resolve(op.dur)
+			switch op.typ {
+			case "ChannelBind":
+				if d == ssa.Value(chanLife) || w.sameKey(d, chanLife) {
+					s.ch = true
 				}
-				np, _ := callOf(call.Call.Args[1])
-				return np != nil && np.Call.StaticCallee() == newPerm && w.sameKey(rs(np.Call.Args[2]), permLife) && w.sameKey(rs(call.Call.Args[0]), acb.Params[0])
-			}))
-			if okChan {
-				c.OK("C07.2", fname(acb), "channel timer", w.instrPos(ret), "every path to this success return starts or refreshes the binding with channelLifetime")
-			} else {
-				c.Bad("C07.2", fname(acb), "channel timer", w.instrPos(ret), "a successful ChannelBind can return without (re)starting the binding's timer with the full channelLifetime")
+			case "Permission":
+				if d == ssa.Value(permLife) || w.sameKey(d, permLife) {
+					s.perm = true
+				} else if base, f, isL := fieldLoad(d); isL && nm(f) == "timeout" {
+					// the timeout of a permission built by NewPermission(_, _, permissionLifetime)
+					if np, _ := callOf(stripIface(env.resolve(w.resolveLoadLocal(base)))); np != nil && np.Call.StaticCallee() == newPerm && len(np.Call.Args) == 3 {
+						l := env.resolve(np.Call.Args[2])
+						if l == ssa.Value(permLife) || w.sameKey(l, permLife) {
+							s.perm = true
+						}
+					}
+				}
 			}
-			if okPerm {
-				c.OK("C07.2", fname(acb), "permission refresh", w.instrPos(ret), "every path to this success return calls AddPermission(NewPermission(peer, _, permissionLifetime))")
+			return s
+		}
+		cfg.Return = func(r *ssa.Return, s cst, env *pathEnv) {
+			if known, isNil := env.knownNil(r.Results[0]); !(known && isNil) && !isNilConst(w.resolveLoad(r.Results[0])) {
+				return // an error return
+			}
+			nOK++
+			if !s.ch {
+				badChan = w.instrPos(r)
+			}
+			if !s.perm {
+				badPerm = w.instrPos(r)
+			}
+		}
+		explorePaths(cfg, acb, cst{})
+		_ = addPerm
+		switch {
+		case cfg.Exhausted || nOK == 0:
+			c.Bad("C07.2", fname(acb), "channel timer", w.pos(acb.Pos()), "undecided: no success path of AddChannelBind could be explored")
+		default:
+			if badChan == "" {
+				c.OK("C07.2", fname(acb), "channel timer", w.pos(acb.Pos()), fmt.Sprintf("every one of the %d success paths starts or refreshes the binding with channelLifetime", nOK))
 			} else {
-				c.Bad("C07.2", fname(acb), "permission refresh", w.instrPos(ret), "a successful ChannelBind can return without installing/refreshing the peer's permission with the full permissionLifetime")
+				c.Bad("C07.2", fname(acb), "channel timer", badChan, "a successful ChannelBind can return without (re)starting the binding's timer with the full channelLifetime")
+			}
+			if badPerm == "" {
+				c.OK("C07.2", fname(acb), "permission refresh", w.pos(acb.Pos()), fmt.Sprintf("every one of the %d success paths installs or refreshes the peer's permission with permissionLifetime", nOK))
+			} else {
+				c.Bad("C07.2", fname(acb), "permission refresh", badPerm, "a successful ChannelBind can return without installing/refreshing the peer's permission with the full permissionLifetime")
 			}
 		}
 	}
